@@ -125,6 +125,7 @@ func init() {
 	indirectHarness["ZZ_C11_proc"] = Indirect{"ZZ_C11_proc", "multiproc"}
 	indirectHarness["ZZ_C13_ro"] = Indirect{"ZZ_C13_race", "race"}
 	indirectHarness["ZZ_C13_will"] = Indirect{"ZZ_C13_will_race", "race"}
+	indirectHarness["ZZ_C13_read"] = Indirect{"ZZ_C13_read_race", "race"}
 }
 
 func jobsFor(prop, tier string) []*Job {
@@ -235,8 +236,8 @@ func jobsFor(prop, tier string) []*Job {
 			if t == 12 || t == 13 {
 				continue
 			}
-			for _, n := range []int{8, 24, 48} {
-				if n == 48 && !thorough {
+			for _, n := range []int{8, 48, 96} {
+				if n == 96 && !thorough && t != 1 && t != 3 {
 					continue
 				}
 				sh := Sh{Typ: t, Slen: 1, NUser: n, NList: n * b2i(hasList(t) || t == 3), Nz: 3}
@@ -266,6 +267,18 @@ func jobsFor(prop, tier string) []*Job {
 		if thorough {
 			seqs = append(seqs, []int{5, 6, 7}, []int{3, 3, 3}, []int{12, 12, 12}, []int{15, 1, 3})
 		}
+		// every type followed by a longer frame (a recycled read buffer is
+		// overwritten by it) and by a frame of the same type
+		for t := 1; t <= 15; t++ {
+			seqs = append(seqs, []int{t, 1}, []int{t, t})
+			if thorough {
+				for u := 2; u <= 15; u++ {
+					if u != t {
+						seqs = append(seqs, []int{t, u})
+					}
+				}
+			}
+		}
 		for _, sq := range seqs {
 			add("seq", "ZZ_C06_seq", []string{"seq"}, sq...)
 		}
@@ -290,7 +303,29 @@ func jobsFor(prop, tier string) []*Job {
 				}
 			}
 		}
+		for _, big := range []int{300, 20000} {
+			for kind := 0; kind <= 3; kind++ {
+				if big == 20000 && kind == 1 && !thorough {
+					continue
+				}
+				j1 := add("sched", "ZZ_C07_sched", []string{"sched"}, append([]int{kind}, Sh{Typ: 3, Slen: 1, Nz: 2, Big: big, Qos: 1}.Args()...)...)
+				j2 := add("sched", "ZZ_C07_sched", []string{"sched"}, append([]int{kind}, Sh{Typ: 1, Slen: 1, Nz: 2, Will: 1, Big: big, Cred: 3}.Args()...)...)
+				// one Read per byte: the work is proportional to the frame length
+				j1.StepBudget, j2.StepBudget = 400*big+200000, 400*big+200000
+			}
+		}
+		for t := 1; t <= 15; t++ {
+			for kind := 0; kind <= 3; kind++ {
+				add("sched", "ZZ_C07_sched", []string{"sched"}, append([]int{kind}, smallWireShapes(t, false)[0].Args()...)...)
+			}
+		}
 	case "C08":
+		for mode := 0; mode <= 2; mode++ {
+			for _, big := range []int{200, 20000} {
+				add("bigcut", "ZZ_C08_bigcut", []string{"bigcut"}, append([]int{mode}, Sh{Typ: 3, Slen: 1, Nz: 2, Big: big, Qos: 1}.Args()...)...)
+				add("bigcut", "ZZ_C08_bigcut", []string{"bigcut"}, append([]int{mode}, Sh{Typ: 1, Slen: 1, Nz: 2, Will: 1, Big: big}.Args()...)...)
+			}
+		}
 		for mode := 0; mode <= 2; mode++ {
 			for n := 2; n <= nmax(0, 5, 7); n++ {
 				add("cut/A", "ZZ_C08_amode", []string{"cut"}, n, mode)
@@ -457,6 +492,11 @@ func jobsFor(prop, tier string) []*Job {
 				}
 			}
 		}
+		for t := 0; t <= 15; t++ {
+			for n := 0; n <= nmax(t, 4, 6); n++ {
+				add("read/"+tn(t), "ZZ_C13_read", []string{"read"}, t, n)
+			}
+		}
 		for _, wm := range []int{0, 1, 63} {
 			add("will", "ZZ_C13_will", []string{"will"}, Sh{Typ: 1, Slen: 1, NUser: 1, Will: 1 | wm<<1, Nz: 1}.Args()...)
 		}
@@ -529,6 +569,7 @@ func jobsFor(prop, tier string) []*Job {
 		for m := 0; m <= 2; m++ {
 			add("disp", "ZZ_C16_disp", []string{"disp"}, m)
 		}
+		add("two", "ZZ_C16_two", []string{"two"})
 	case "C17":
 		for tl := 0; tl <= 2; tl++ {
 			for o := 0; o <= 1; o++ {
@@ -569,6 +610,11 @@ func jobsFor(prop, tier string) []*Job {
 						add("ni/connect", "ZZ_C18_ni", []string{"ni"}, append([]int{mode, ul, pl}, sh.Args()...)...)
 					}
 				}
+			}
+		}
+		for w := 1; w <= 2; w++ {
+			for _, sh := range []Sh{{Typ: 1, Slen: 0, Mask: apiMask(1), Will: 1 | (1<<6-1)<<1, Nz: 3}, {Typ: 1, Slen: 1, Mask: 6, Will: 1 | 24<<1, NUser: 1, Nz: 3}} {
+				add("ni/window", "ZZ_C18_window", nil, append([]int{w}, sh.Args()...)...)
 			}
 		}
 	case "C19":
